@@ -11,6 +11,7 @@
 //!       {"k":"route","tree":T,"key":[bytes],"value":[bytes]} -> RaftDataHandler::load_snapshot of one record on a
 //!                            fresh mini node: {"result":"ok"|"err:..","changed":[component..],"detail":{..}}
 //!       {"k":"route_samples"} -> one valid [tree,key,value] per tree name
+//!       {"k":"tmp_snapshot","key":K,"content":C,"commit":R} -> a_tmp / b_loaded / a_committed / b_committed dumps
 //! `between` (default "settle"): after every follower batch wait for quiescence (awaited round trips
 //! through every actor), i.e. requests of ONE batch race with each other, batches do not.  "none": only the
 //! await on the ApplyBatchRequest answer ("manager") / nothing at all ("direct") separates batches.
@@ -318,6 +319,76 @@ impl Dispatch {
         Ok(v)
     }
 
+    /// {"k":"tmp_snapshot","key":K,"content":C,"commit":<ConfigSet for the same key/content>}:
+    /// A: ConfigCmd::SetTmpValue (what a follower does after a routed write) -> dump a_tmp;
+    /// B: fresh node loading ALL of A's real snapshot records through handler.load_snapshot -> b_loaded;
+    /// then the commit request on both through apply_log_to_state_machine -> a_committed / b_committed.
+    fn run_tmp_snapshot(&self, case: &Value) -> anyhow::Result<Value> {
+        use rnacos::config::core::{ConfigCmd, ConfigKey};
+        use rnacos::raft::filestore::model::SnapshotRecordDto;
+        let key = case["key"].as_str().unwrap_or("").to_string();
+        let content = case["content"].as_str().unwrap_or("").to_string();
+        let commit = smutil::parse_req(&case["commit"])?;
+        let mut all = vec![commit.clone()];
+        all.push(ClientRequest::ConfigRemove { key: key.clone() }); // only to name the key for the dump
+        let occur = Occur::collect(&all);
+        let tmp_base = self.tmp_base.clone();
+        let sys = actix_rt::System::new();
+        let out = sys.block_on(async move {
+            let a = MiniNode::build(&tmp_base).await?;
+            let b = MiniNode::build(&tmp_base).await?;
+            a.config
+                .send(ConfigCmd::SetTmpValue(
+                    ConfigKey::from(key.as_str()),
+                    std::sync::Arc::new(content),
+                ))
+                .await??;
+            a.settle().await?;
+            let (a_tmp, _) = smutil::dump(&a, &occur).await?;
+            let recs = smutil::snapshot_part_raw(&a, Part::All).await?;
+            let mut load_errors = vec![];
+            let n_records = recs.len();
+            for (tree, k, v) in recs {
+                let rec = SnapshotRecordDto {
+                    tree: std::sync::Arc::new(tree.clone()),
+                    key: k,
+                    value: v,
+                    op_type: 0,
+                };
+                // StateApplyManager::do_load_snapshot logs the error and goes on
+                if let Err(e) = b.handler.load_snapshot(rec).await {
+                    load_errors.push(json!([tree, e.to_string()]));
+                }
+            }
+            b.settle().await?;
+            b.settle().await?;
+            let (b_loaded, _) = smutil::dump(&b, &occur).await?;
+            let ra = a
+                .handler
+                .apply_log_to_state_machine(commit.clone(), &a.index)
+                .await;
+            let rb = b
+                .handler
+                .apply_log_to_state_machine(commit.clone(), &b.index)
+                .await;
+            a.settle().await?;
+            b.settle().await?;
+            let (a_committed, _) = smutil::dump(&a, &occur).await?;
+            let (b_committed, _) = smutil::dump(&b, &occur).await?;
+            anyhow::Ok((
+                json!({"r": "ok", "a_tmp": a_tmp, "b_loaded": b_loaded,
+                       "a_committed": a_committed, "b_committed": b_committed,
+                       "snapshot_records": n_records, "load_errors": load_errors,
+                       "commit_results": [ok_err(&ra), ok_err(&rb)]}),
+                (a.dir, b.dir),
+            ))
+        });
+        drop(sys);
+        let (v, dirs) = out?;
+        drop(dirs);
+        Ok(v)
+    }
+
     /// {"k":"route_samples"}: one valid [tree,key,value] per tree name, taken from the real snapshot of a mini
     /// node that applied the (non-destructive) sample requests, plus a few hand-built ones
     fn run_route_samples(&self) -> anyhow::Result<Value> {
@@ -424,6 +495,7 @@ impl Suite for Dispatch {
         match catch_unwind(AssertUnwindSafe(|| match kind.as_str() {
             "route" => self.run_route(case),
             "route_samples" => self.run_route_samples(),
+            "tmp_snapshot" => self.run_tmp_snapshot(case),
             _ => self.run_case(case),
         })) {
             Ok(Ok(v)) => v,
